@@ -19,6 +19,7 @@ import (
 	"github.com/bronlabs/bron-crypto/pkg/base/curves/k256"
 	"github.com/bronlabs/bron-crypto/pkg/base/curves/p256"
 	"github.com/bronlabs/bron-crypto/pkg/base/datastructures/hashmap"
+	"github.com/bronlabs/bron-crypto/pkg/base/serde"
 	"github.com/bronlabs/bron-crypto/pkg/mpc"
 	"github.com/bronlabs/bron-crypto/pkg/mpc/session"
 	"github.com/bronlabs/bron-crypto/pkg/mpc/signatures/ecdsa/dkls23"
@@ -63,6 +64,9 @@ type signFlavor[G algebra.PrimeGroupElement[G, S], S algebra.PrimeFieldElement[S
 	refVerify func(pk G, msg []byte, sig any) error
 	// nonce extracts the public nonce part (R or r) of a signature, for C07.
 	nonce func(sig any) []byte
+	// encPartial / decPartial: wire form of a partial signature on its way to the aggregator.
+	encPartial func(p any) ([]byte, error)
+	decPartial func(b []byte) (any, error)
 }
 
 // ---------- Lindell22 over a vanilla Schnorr scheme ----------
@@ -155,6 +159,8 @@ func flavorL22Vanilla[G algebra.PrimeGroupElement[G, S], S algebra.PrimeFieldEle
 		return nil
 	}
 	f.nonce = func(sig any) []byte { return sig.(*schnorrlike.Signature[G, S]).R.Bytes() }
+	f.encPartial = func(p any) ([]byte, error) { return serde.MarshalCBOR(p.(*lindell22.PartialSignature[G, S])) }
+	f.decPartial = func(b []byte) (any, error) { return serde.UnmarshalCBOR[*lindell22.PartialSignature[G, S]](b) }
 	return f
 }
 
@@ -234,6 +240,12 @@ func flavorL22BIP340() *signFlavor[*k256.Point, *k256.Scalar] {
 		return ref.BIP340Verify(pk.ToCompressed()[1:], msg, wire)
 	}
 	f.nonce = func(sig any) []byte { return sig.(*bip340.Signature).R.ToCompressed()[1:] }
+	f.encPartial = func(p any) ([]byte, error) {
+		return serde.MarshalCBOR(p.(*lindell22.PartialSignature[*k256.Point, *k256.Scalar]))
+	}
+	f.decPartial = func(b []byte) (any, error) {
+		return serde.UnmarshalCBOR[*lindell22.PartialSignature[*k256.Point, *k256.Scalar]](b)
+	}
 	return f
 }
 
@@ -326,6 +338,8 @@ func flavorDKLs23[P curves.Point[P, B, S], B algebra.PrimeFieldElement[B], S alg
 		return refECDSAVerify(kit, ek, h, pk, msg, sig.(*sigecdsa.Signature[S]))
 	}
 	f.nonce = func(sig any) []byte { return sig.(*sigecdsa.Signature[S]).R().Bytes() }
+	f.encPartial = func(p any) ([]byte, error) { return serde.MarshalCBOR(p.(*dkls23.PartialSignature[P, B, S])) }
+	f.decPartial = func(b []byte) (any, error) { return serde.UnmarshalCBOR[*dkls23.PartialSignature[P, B, S]](b) }
 	return f
 }
 
